@@ -54,8 +54,9 @@ def _encode(n, lim):
 
     def stub_wrap_column(it, fr, args, guard):
         col, width = args[0], ctx.lift(args[1])
-        bad = z3.And(guard, L[col] > width, width <= 0)               # textwrap.wrap(cell, width <= 0) raises ValueError
+        bad = z3.And(guard, L[col] > width, width <= 0)               # textwrap.wrap(cell, width <= 0) raises ValueError (also for an empty cell: 0 > negative width)
         o1.append(bad)
+        state.setdefault("o1_cols", []).append((col, bad))
         ctx.exc = z3.Or(ctx.exc, bad)                                  # ... and nothing after it runs
         state["last_width"][col] = width
         return None
@@ -93,6 +94,7 @@ def smt_wrap(tier):
     n, lim = PART["n"], PART["lim"]
     t0 = _time.time()
     ctx, L, mx, pre, assume, o1, fs, state = _encode(n, lim)
+    o1_by_col = [z3.Or(*[c for (col, c) in state["o1_cols"] if col == i] or [z3.BoolVal(False)]) for i in range(n)]
     results, solver_s = [], 0.0
     none_zero = z3.Not(z3.Or(*o1))
 
@@ -121,6 +123,11 @@ def smt_wrap(tier):
             return {"verdict": "refuted", "args": _model_args(model, n, "D"), "detail": results, "queries": len(results), "solver_s": round(solver_s, 2)}
         if r != "unsat":
             return {"verdict": "unknown", "message": "D " + r, "detail": results, "queries": len(results)}
+    r, model = q("O1z: a column whose cells are all empty is never handed to textwrap with a width <= 0", z3.Or(*[z3.And(c, L[i] == 0) for i, c in enumerate(o1_by_col)]))
+    if r == "sat":
+        return {"verdict": "refuted", "args": _model_args(model, n, "O1z"), "detail": results, "queries": len(results), "solver_s": round(solver_s, 2)}
+    if r != "unsat":
+        return {"verdict": "unknown", "message": "O1z " + r, "detail": results, "queries": len(results)}
     known_o1 = kf.is_open("C14-zero-width-column")
     if not known_o1:
         r, model = q("O1: every width handed to textwrap is >= 1", z3.Or(*o1))
@@ -144,6 +151,17 @@ def _model_args(model, n, which):
 
 def _replay_wrap(args):
     lengths, mx = [int(x) for x in args["lengths"]], int(args["max"])
+    if args.get("which") == "O1z":
+        # only a violation if dropping the empty columns makes the failure disappear (otherwise it is the known zero-width finding)
+        try:
+            _real_fit(lengths, mx)
+            return None
+        except ValueError as e:
+            try:
+                _real_fit([l for l in lengths if l > 0], mx)
+            except ValueError:
+                return None
+            return "CellWrapper.fit(max=%d) on columns %r raises ValueError(%s) only because of the empty column" % (mx, lengths, e)
     try:
         w = _real_fit(lengths, mx)
     except ValueError as e:
@@ -198,7 +216,24 @@ def _table_case(cells, ncols, header, style_i, width, indent, aligns):
         t.render(io, indent)
     except ValueError as e:
         if "invalid width" in str(e) and kf.excluded("C14-zero-width-column", True):
-            return True
+            # the known finding concerns columns WITH text.  An all-empty column takes no width; if the failure disappears once
+            # such columns are left out (and the terminal narrowed by what they occupied), it is a different defect.
+            empty = [c for c in range(ncols) if all(_visible(r[c]) == "" for r in all_rows)]
+            if not empty or len(empty) == ncols:
+                return True
+            keep = [c for c in range(ncols) if c not in empty]
+            t2 = Table(getattr(TableStyle, STYLES[style_i])())
+            if header:
+                t2.set_header_row([all_rows[0][c] for c in keep])
+            for r in rows:
+                t2.add_row([r[c] for c in keep])
+            io2 = BufferedIO()
+            io2.set_terminal_dimensions(Rectangle(width - len(empty) * (excess + len(bs.line_vc_char)), 20))
+            try:
+                t2.render(io2, indent)
+            except ValueError:
+                return True
+            return False
         raise
     if ([list(r) for r in t._rows], list(t._header_row)) != snapshot:
         return False                                    # rendering does not modify the table
